@@ -397,8 +397,13 @@ fn replay_c04(ctx: &Ctx, c: &J, st: &mut Stats) {
 
 /// A game that shuffles pieces out and back so that positions occur one to four times, sometimes
 /// the initial position of the history.
-fn repeat_game(rng: &mut Rng) -> Game {
-    let startpos = rng.chance(1, 3);
+pub fn repeat_game(rng: &mut Rng) -> Game {
+    repeat_game_from(rng, None)
+}
+
+/// `force_startpos`: Some(true) = always from the start position
+pub fn repeat_game_from(rng: &mut Rng, force_startpos: Option<bool>) -> Game {
+    let startpos = force_startpos.unwrap_or_else(|| rng.chance(1, 3));
     let mut start = if startpos {
         Pos::start()
     } else {
